@@ -168,7 +168,7 @@ PROPS['C16'] = {
     'builds': ['default', 'force-inprocess'],
     'theorems': ['C16.C16_total', 'C16.C16_sound', 'C16.C16_roundtrip', 'Wire.dec_ne_panic_all', 'Wire.dec_sound_all', 'Wire.dec_enc',
                  'C16.C16_to_script', 'C16.C16_takeAll_get', 'C16.C16_shape', 'C16.C16_code_variant',
-                 'C16Kind.C16_kind_partial', 'C16Kind.C16_kind_match', 'C16Kind.C16_kind_inproc_witness'],
+                 'C16Kind.C16_kind_total', 'C16Kind.C16_kind_partial', 'C16Kind.C16_kind_match'],
     'scenarios': (lambda a: (lambda tier, seed: a(tier, seed) + [{'args': ['crash', '--shape', str(i), '--tier', tier]} for i in ((1, 2, 5) if tier == 'thorough' else (1,))]
                              + [{'build': b, 'args': ['kindmix']} for b in ('default', 'force-inprocess')]))(wire_scen('dec', 2400, 40000)),
     'search': search_wire,
@@ -186,8 +186,8 @@ PROPS['C16'] = {
                    'attachments used at most once, well-typed values round-trip; real decoder vs model on fuzzed and mutated inputs; attachment release '
                    'observed on the real crate'),
     'level_note': ('Trusted: Lean kernel, harness, bincode 1.3 modelled for the Schema family (tied by differential decode); drop-based release observed, not proved. '
-                   'OPEN FINDING D18: on the in-process transport an endpoint decoded as the other kind (sender <-> receiver) panics (to_sender / to_receiver); proved only for transports '
-                   'without kind information and for a kind-aware transport that answers with an error (C16_kind_partial), witness C16_kind_inproc_witness, replayed by the kindmix scenario'),
+                   'Kind mismatch (a receiver decoded as a sender or vice versa): the OS transports cannot tell and hand out an endpoint on the attached descriptor, the in-process '
+                   'transport answers a decode error since the repair of D18 (C16_kind_total; kindmix scenario on both builds)'),
 }
 PROPS['C01']['scenarios'] = (lambda old: (lambda tier, seed: old(tier, seed) + wire_scen('enc', 1200, 20000)(tier, seed) + bytes_scen(['default'], 150, 3000)(tier, seed)))(PROPS['C01']['scenarios'])
 PROPS['C01']['modules'] = ['IpcModel.Props.C01', 'IpcModel.Props.C16', 'IpcModel.Props.C01Value']
